@@ -16,7 +16,7 @@ var guards = map[string]guardSpec{
 	"Cache": {rel: "security/cert", typ: "Cache", mutex: "mut", fields: []string{"entries", "accessOrder"}, helpers: []string{"evict"}},
 	"Blockchain": {rel: "security/blockchain", typ: "Blockchain", mutex: "mut",
 		fields: []string{"blocks", "blockAtHeight", "pruneHeight", "pendingFetch"}},
-	"ViewStates": {rel: "protocol", typ: "ViewStates", mutex: "mut", fields: []string{"highQC", "highTC", "view", "committedBlock"}},
+	"ViewStates":    {rel: "protocol", typ: "ViewStates", mutex: "mut", fields: []string{"highQC", "highTC", "view", "committedBlock"}},
 	"VotingMachine": {rel: "protocol/votingmachine", typ: "VotingMachine", mutex: "mut", fields: []string{"verifiedVotes"}},
 	"Generator":     {rel: "twins", typ: "Generator", mutex: "mut", fields: []string{"remaining", "indices"}, optional: []string{"done"}},
 }
